@@ -3,7 +3,10 @@ C16 - warnings are counted and drive the exit status.  Claimed for the COUNTING 
   R16.1 System.msg counts every negative-threshold message, independently of verbosity, after the `once` de-duplication
   R16.2 the problem reporters named by the property report with the default (counting) threshold
   R16.3 exit status computation in driver.main
-Does not decide: any line number (line arithmetic over runtime values).
+and for the PROVENANCE part of the location clause:
+  R16.4 a report names the file the object itself was read from (source_path set once, read from self), `<file>:<line>: <text>`;
+        a type field keeps the line of its field
+Does not decide: any line arithmetic (offsets inside a docstring are runtime values).
 """
 from __future__ import annotations
 
@@ -142,3 +145,48 @@ def run(repo: Repo, chk: Check, thorough: bool = False) -> None:
     chk.ob('R16.3', 'driver.main :: status computed after the output was produced', ok, 'make(system) precedes the status computation' if ok else
            'the exit status is computed before rendering (rendering problems would not count)', mn.loc)
     chk.require('R16.3', 5)
+
+    # ------------------------------------------------------------------ R16.4  (provenance part of the location clause)
+    from ..owners import writers
+    ds = repo.func(f'{M}.Documentable.description')
+    sp = [n for n in ds.walk() if isinstance(n, ast.Attribute) and n.attr == 'source_path']
+    if not sp:
+        raise AnalysisError('R16.4: Documentable.description no longer reads source_path')
+    bad = [n for n in sp if dotted(n.value) != 'self']
+    chk.ob('R16.4', f'{M}.Documentable.description :: names the file the object itself was read from', not bad,
+           'self.source_path' if not bad else
+           f'`{norm(bad[0])}`: after a re-export the object lives in another module than the file it was written in, so problems in its docstring '
+           'are reported against a file that does not contain it', repo.loc(ds.mod, bad[0] if bad else sp[0]))
+    ws = writers(repo, 'source_path', [f'{M}.Documentable'], unknown_counts=True, skip_modules=('pydoctor.test',))
+    outside = [w for w in ws if w.func.qn != f'{M}.Documentable.__init__']
+    chk.ob('R16.4', f'{M}.Documentable.source_path :: set once, at creation', bool(ws) and not outside,
+           f'{len(ws)} write(s), all in Documentable.__init__' if ws and not outside else
+           (f'`{norm(outside[0].node)[:60]}` in {outside[0].func.qn} rewrites the source file of an existing object' if outside else 'no writer found'),
+           outside[0].loc if outside else ds.loc)
+    rp_ = repo.func(f'{M}.Documentable.report')
+    fs = [n for n in rp_.walk() if isinstance(n, ast.JoinedStr)]
+    parts = [norm(v.value) for j in fs for v in j.values if isinstance(v, ast.FormattedValue)]
+    lnv = {t.id for n in rp_.walk() if isinstance(n, (ast.Assign, ast.AugAssign, ast.AnnAssign))
+           for t in (n.targets if isinstance(n, ast.Assign) else [n.target]) if isinstance(t, ast.Name)}
+    ok = 'self.description' in parts and any(p_ in lnv for p_ in parts)
+    chk.ob('R16.4', f'{M}.Documentable.report :: message is <own file>:<line>: <text>', ok, "f'{self.description}:{linenumber}: {descr}'" if ok else
+           f'the message is built from {parts}', rp_.loc)
+    # a field body re-parsed as a type keeps the line of its field (link problems inside it are reported from that line)
+    n_pt = 0
+    for f in sorted(repo.funcs.values(), key=lambda f: f.qn):
+        if '.test' in f.mod.name:
+            continue
+        for c in calls_in(f, lambda c: call_name(c) == 'ParsedTypeDocstring'):
+            loop = next((p_ for p_ in parents(c) if isinstance(p_, ast.For) and isinstance(p_.target, ast.Name)), None)
+            if loop is None:
+                continue
+            n_pt += 1
+            kw = next((k.value for k in c.keywords if k.arg == 'lineno'), c.args[2] if len(c.args) > 2 else None)
+            ok = isinstance(kw, ast.Attribute) and kw.attr == 'lineno' and isinstance(kw.value, ast.Name) and kw.value.id == loop.target.id
+            chk.ob('R16.4', f'{f.qn} :: a type field keeps the line of its field', ok, f'lineno={norm(kw)}' if ok else
+                   f'`{norm(c)[:70]}` drops the field\'s line: an unresolvable name in @type/@rtype is reported at the first line of the docstring '
+                   'instead of the line that contains it', repo.loc(f.mod, c))
+    if n_pt < 1:
+        raise AnalysisError('R16.4: the per-field ParsedTypeDocstring(...) construction in processtypes was not found')
+    chk.require('R16.4', 4)
+
